@@ -87,6 +87,8 @@ def run_entry(case, entry):
             if not ok:
                 return {"dead": not s.alive(), "records": None, "continuation_prompt": b">> " in outp[-40:]}
             ok, _ = s.line("vp_argv ENDST $?", 15)
+            if not ok:
+                return {"dead": not s.alive(), "records": None, "continuation_prompt": False}
         finally:
             s.close()
     if r is not None:
@@ -100,6 +102,8 @@ def run_entry(case, entry):
             continue
         if x["name"] == "vp_snap":
             continue
+        if x["name"] == "vp_argv" and x["argv"][1:2] == ["WARMUP"]:
+            continue          # (the warm-up command of the pty entry; its record can land after the log was reset)
         if x["name"] == "vp_argv" and x["argv"][1:2] == ["ENDST"]:
             status = int(x["argv"][2]) if len(x["argv"]) > 2 and x["argv"][2].lstrip("-").isdigit() else x["argv"][2:]
             continue
@@ -137,6 +141,8 @@ def judge(case):
             what = "status-differs"
         elif entry != "pty" and got["stdout"].replace("O:Z\n", "") != base["stdout"].replace("O:Z\n", "") and False:
             what = "stdout-differs"
+        if entry == "pty" and got["status"] is None and what in (None, "status-differs"):
+            return ("inconclusive", "status probe of the pty entry left no record", res)
         if what:
             res["entry"] = entry
             return ("violated", "C16:%s:%s:%s:%s" % (entry, case["src"], feature(case["line"]), what), res)
@@ -165,8 +171,8 @@ def feature(line):
 
 
 def ok_line(line):
-    if "\t" in line or "\n" in line or "!!" in line or "\r" in line:
-        return False
+    if "\t" in line or "\n" in line or "!!" in line or "\r" in line or "$$" in line:
+        return False      # (`$$`, escaped or not: the pid differs between entry points by construction)
     import re
     if re.search(r"\$[0-9@]", line) or re.search(r"\$\{[0-9@]", line):
         return False      # positional parameters mean different things by construction
@@ -193,6 +199,9 @@ def gen_cases(tier, seed):
                     st = c01.styles_for(t)
                 args.append((t, rng.choice(st)))
             line = c01.render(args, rng.choice(c01.FOLLOWERS), sep=rng.choice([" ", "  "]))
+            if rng.random() < 0.15:
+                # a line whose last word ends in an escaped blank (lines are trimmed on some paths)
+                line = "vp_argv %s w\\ " % rng.choice(["a", "'q r'", "x\\>y"]) + rng.choice(["", " ", "  "])
             setup["files"] = {"a": "", "aa": "", "b": ""}
         elif src == "c03":
             n_ = rng.randint(2, 6)
@@ -229,6 +238,10 @@ def gen_cases(tier, seed):
             cc = c11.gen_case(rng, 0)
             if any(p[0] == "sub" and p[1]["inner"] in ("var",) for p in cc["parts"]):
                 continue
+            if cc["ctx"] in ("unq", "here", "assign") and any(
+                    p[0] == "sub" and p[1]["inner"] == "quoted-args" and any(set(c11.INNER_DECOYS[j][0]) & set("()\\") for j in p[1]["decoys"])
+                    for p in cc["parts"]):
+                continue      # C11's open finding (parentheses inside quotes end `$(` early): the entry points differ because of it
             line, _ = c11.build(cc)
             vp = {"out.Z": "NESTED-RAN"}
             for p in cc["parts"]:
